@@ -29,10 +29,14 @@ OpTagPos(b) ==
 \* the same octets with a constructed [APPLICATION 2] identifier (0x62) replaced by the primitive one (0x42)
 FixUnbind(b) == LET p == OpTagPos(b) IN IF p > 0 /\ b[p] = 98 THEN [b EXCEPT ![p] = 66] ELSE b
 
+\* events packed with PackingOptions(string_encoding # "utf-8") carry enc: the RFC 4511 reference (UTF-8 strings) does not
+\* apply to their octets, only the round-trip clauses of C01 do
+Utf8Wire(e) == ~("enc" \in DOMAIN e) \/ e.enc = "utf-8"
+
 Step(e) ==
     IF e.packres # "ok" THEN Verdict("C01", "PackRaises")
     ELSE
-      LET s == DecStrict(e.packed) IN
+      LET s == IF Utf8Wire(e) THEN DecStrict(e.packed) ELSE [ok |-> TRUE, m |-> e.m] IN
       /\ IF s.ok THEN Check(s.m = e.m, "C03", "StrictValue")
          ELSE LET s2 == DecStrict(FixUnbind(e.packed)) IN
               IF s2.ok /\ s2.m = e.m /\ e.m.op = "unbindRequest" THEN Verdict("C03", "UnbindConstructed")
